@@ -72,6 +72,12 @@ int precedenceOf(SyntaxKind exprK)
             return 6;
         case SyntaxKind::BitwiseANDExpression:
             return 5;
+        case SyntaxKind::BitwiseXORExpression:
+            return 4;
+        case SyntaxKind::BitwiseORExpression:
+            return 3;
+        case SyntaxKind::LogicalANDExpression:
+            return 2;
         default:
             return 0;
     }
